@@ -13,6 +13,7 @@ import (
 	"github.com/btcsuite/btcd/chainhash/v2"
 	"github.com/btcsuite/btcd/wire/v2"
 	"github.com/lightninglabs/neutrino/chainimport"
+	"github.com/lightninglabs/neutrino/chainsync"
 	"github.com/lightninglabs/neutrino/headerfs"
 	"pgregory.net/rapid"
 
@@ -55,6 +56,11 @@ type Case struct {
 	FileFail    string `json:"file_fail,omitempty"`
 	FileFailNth int    `json:"file_fail_nth,omitempty"`
 	FileFailCut int    `json:"file_fail_cut,omitempty"`
+	// HardH > 0: the network has a hard-coded filter-header checkpoint at
+	// that height; HardMatch: its value is the main chain's filter header
+	// there (otherwise a value no file can carry).
+	HardH     int  `json:"hard_h,omitempty"`
+	HardMatch bool `json:"hard_match,omitempty"`
 }
 
 func genCase(t *rapid.T) Case {
@@ -98,6 +104,14 @@ func genCase(t *rapid.T) Case {
 		c.FEnd = rapid.IntRange(c.FStart, n).Draw(t, "fend")
 	}
 	c.Batch = rapid.IntRange(1, 40).Draw(t, "batch")
+	if kit.Uni(t, "hard", 4) == 0 {
+		c.HardH = rapid.IntRange(1, n).Draw(t, "hardh")
+		if kit.Uni(t, "hardnear", 2) == 0 {
+			// inside the part of the file that has to be appended
+			c.HardH = min(n, max(1, min(c.PreB, c.PreF)+rapid.IntRange(0, 4).Draw(t, "hardoff")))
+		}
+		c.HardMatch = rapid.Bool().Draw(t, "hardmatch")
+	}
 	switch kit.Uni(t, "defect", 12) {
 	case 0:
 		c.WrongMagic = true
@@ -294,6 +308,21 @@ func runCase(t *testing.T, c Case) (v kit.Verdict) {
 		return err
 	}
 
+	var hardVal chainhash.Hash
+	hardH := 0
+	if c.HardH > 0 && c.HardH < len(main) {
+		hardH = c.HardH
+		hardVal = main[hardH].FHdr
+		if !c.HardMatch {
+			hardVal = chainhash.HashH(append([]byte("no-such-filter-header"), hardVal[:]...))
+			v.Class("hard:mismatch")
+		} else {
+			v.Class("hard:match")
+		}
+		hv := hardVal
+		chainsync.VerifSetFilterHeaderCheckpoints(w.Params.Net, map[uint32]*chainhash.Hash{uint32(hardH): &hv})
+		defer chainsync.VerifSetFilterHeaderCheckpoints(w.Params.Net, nil)
+	}
 	if c.FailCommit > 0 {
 		env.DB.FailAt = env.DB.Commits + int64(c.FailCommit)
 	}
@@ -401,6 +430,20 @@ func runCase(t *testing.T, c Case) (v kit.Verdict) {
 		v.Fail("C14/content/import-"+res, "after an import that %s (tips %d/%d) the stores do not hold 'earlier contents extended by the file': %s", res, bTip, fTip, d)
 		return
 	}
+	// A filter header the import appended at a height with a hard-coded
+	// checkpoint equals that checkpoint (anything else was not validated).
+	if hardH > preF && hardH <= fTip {
+		if fSrc(hardH) != hardVal {
+			res := "failed"
+			if ierr == nil {
+				res = "succeeded"
+			}
+			v.Fail("C14/hard-checkpoint-mismatch-stored/import-"+res, "the import (%s) appended filter header %v at height %d, where the network's hard-coded filter-header checkpoint is %v", res, fSrc(hardH), hardH, hardVal)
+			return
+		}
+		v.Class("hard:height-imported")
+		v.Nontrivial = true
+	}
 	if bTip < preB || fTip < preF {
 		v.Fail("C14/shrunk", "import shrank a store: block %d->%d filter %d->%d", preB, bTip, preF, fTip)
 		return
@@ -486,6 +529,12 @@ func runCase(t *testing.T, c Case) (v kit.Verdict) {
 		if writeFile(bf2, b2.Bytes(), w.Params.Net, headerfs.Block, 0) != nil || writeFile(ff2, f2.Bytes(), w.Params.Net, headerfs.RegularFilter, 0) != nil {
 			v.Harness = "cannot write the follow-up files"
 			return
+		}
+		if hardH > 0 && !c.HardMatch {
+			// the follow-up file is the true chain, which the generated
+			// mismatching checkpoint forbids: that is configuration, not
+			// damage; the usability of the stores is tested without it
+			chainsync.VerifSetFilterHeaderCheckpoints(w.Params.Net, nil)
 		}
 		if err := doImport(bf2, ff2, 16); err != nil {
 			v.Fail("C14/later-import-fails", "a correct import after the failed one fails: %v", err)
